@@ -25,7 +25,12 @@ W18(r) == r.enc # "spki" /\ Readable(r) /\ r.fn \in {"self_sign", "sign_req"} /\
 W19(r) == ~Readable(r) /\ r.enc # "opaque"
 W20(r) == r.enc = "opaque" /\ r.publen = 0
 W21(r) == r.pubbuf \in {"bytearray", "memoryview-slice"} /\ r.enc # "spki"
-ASSUME PrintT(<<"WITNESSES", [OuterNarrows5to3 |-> Wit(W5b), NaiveOnNonUtcHost |-> Wit(W15), DstZone |-> Wit(W16), YearBelow1000 |-> Wit(W17),
+W22(r) == r.fn = "new_cert" /\ r.zone # "" /\ r.zone = r.zone2 /\ r.sw = r.ew /\ r.sf = 0 /\ r.ef = 1
+W23(r) == r.zone # "" /\ InGap(ZoneOf(r.zone), r.sw) /\ r.sf = 1
+W24(r) == r.fn = "derive" /\ r.zone # "" /\ r.sf = 1 /\ Ambiguous(ZoneOf(r.zone), r.sw)
+W25(r) == r.fn = "new_cert" /\ r.zone = "" /\ r.zone2 # "" /\ r.ef = 1
+ASSUME PrintT(<<"WITNESSES", [BothPassesOfOneReadingInOneCall |-> Wit(W22), ReadingInsideTheGap |-> Wit(W23), StartInSecondPass |-> Wit(W24),
+                               OnlyTheEndInADstZone |-> Wit(W25), OuterNarrows5to3 |-> Wit(W5b), NaiveOnNonUtcHost |-> Wit(W15), DstZone |-> Wit(W16), YearBelow1000 |-> Wit(W17),
                                LeapDayWithSameDay |-> Wit(W12), KeyInsideIdentity |-> Wit(W13), ReservedWordInIdentity |-> Wit(W14),
                                NaiveStartAwareEnd |-> Wit(W7), AwareStartNaiveEnd |-> Wit(W8), TypedTextId |-> Wit(W9),
                                EscapedTextId |-> Wit(W10), NonCanonicalKeyOwnSigned |-> Wit(W18), KeyEncodingImportersDoNotRead |-> Wit(W19),
